@@ -711,9 +711,97 @@ ENV_FIELD = {"HTTP_RANGE": "q_range", "HTTP_IF_RANGE": "q_if_range", "HTTP_IF_MO
              "HTTP_IF_NONE_MATCH": "q_if_none_match", "HTTP_IF_MATCH": "q_if_match", "REQUEST_METHOD": "q_method"}
 
 
+def _last_def(mod, name):
+    found = [n for n in getattr(mod, "body", []) if isinstance(n, ast.FunctionDef) and n.name == name]
+    if not found:
+        raise px.Unsupported(f"def {name} not found")
+    return found[-1]
+
+
+def _setter(cls, name):
+    for n in cls.body:
+        if isinstance(n, ast.FunctionDef) and n.name == name and any(norm(d) == f"{name}.setter" for d in n.decorator_list):
+            return n
+    raise px.Unsupported(f"setter {cls.name}.{name} not found")
+
+
+def gen_pins() -> None:
+    """(b) statement pins: the hand-written model and the oracles were written against these texts (tools/pins/c11_*.txt);
+    sub-expressions that are translated into Gen.v / GenArith.v are holes.  Layout, comments and docstrings do not matter."""
+    http = px.load("http.py")
+    resp = px.load("wrappers/response.py")
+    sresp = px.load("sansio/response.py")
+    rng = px.load("datastructures/range.py")
+    etag = px.load("datastructures/etag.py")
+    wsgi = px.load("wsgi.py")
+    exc = px.load("exceptions.py")
+    utils = px.load("utils.py")
+    internal = px.load("_internal.py")
+    R = px.find_class(resp, "Response")
+    SR = px.find_class(sresp, "Response")
+
+    def sk(node, holes=None):
+        import copy
+        node = copy.deepcopy(node)
+        for n in ast.walk(node):          # docstrings of nested methods do not matter either
+            if isinstance(n, (ast.FunctionDef, ast.ClassDef)) and n.body and isinstance(n.body[0], ast.Expr) \
+                    and isinstance(n.body[0].value, ast.Constant) and isinstance(n.body[0].value.value, str):
+                n.body = n.body[1:] or [ast.Pass()]
+        return px.skeleton(node, holes)
+
+    def ind(t):
+        return "\n".join("    " + ln if ln else ln for ln in t.split("\n"))
+
+    pr = find_method(R, "_process_range_request")
+    guard = norm([n for n in body_wo_doc(pr) if isinstance(n, ast.If)][0].test)
+    parts = [
+        sk(find_method(R, "make_conditional"), {"('GET', 'HEAD')": "<T1:conditional_methods>",
+                                                "self.status_code = 412": "self.status_code = <T1:status_precondition_failed>",
+                                                "self.status_code = 304": "self.status_code = <T1:status_not_modified>"}),
+        sk(pr, {guard: "<T2:range_request_skipped>"}),
+        sk(find_method(R, "_wrap_range_response")),
+        "<T2:is_range_request_processable> _is_range_request_processable",
+        sk(find_method(R, "add_etag")), sk(find_method(R, "freeze")), sk(find_method(R, "get_app_iter")),
+        sk(find_method(R, "calculate_content_length")), sk(find_method(R, "_ensure_sequence")), sk(find_method(R, "make_sequence")),
+        sk(find_method(SR, "set_etag")), sk(find_method(SR, "get_etag")), sk(_setter(SR, "content_range")),
+    ]
+    px.check_pin(PID, "c11_response.txt", "\n\n".join(parts) + "\n", "the Response methods the C11 model / oracles stand for")
+
+    parts = [sk(_last_def(http, n)) for n in ("parse_etags", "quote_etag", "unquote_etag", "generate_etag", "parse_if_range_header",
+                                                "parse_date", "http_date", "remove_entity_headers", "is_entity_header")]
+    parts += [sk(px.find_def(internal, "_plain_int")), sk(_last_def(internal, "_dt_as_utc"))]
+    px.check_pin(PID, "c11_http.txt", "\n\n".join(parts) + "\n", "the http helpers the C11 model / date contract stand for")
+
+    RG, IR, ET = px.find_class(rng, "Range"), px.find_class(rng, "IfRange"), px.find_class(etag, "ETags")
+    parts = [sk(find_method(RG, "__init__")), sk(find_method(RG, "to_content_range_header")), "<T2:range_for_length> Range.range_for_length",
+             sk(find_method(IR, "__init__"))]
+    parts += [sk(find_method(ET, m)) for m in ("__init__", "is_weak", "is_strong", "contains_weak", "contains", "__bool__")]
+    px.check_pin(PID, "c11_datastructures.txt", "\n\n".join(parts) + "\n", "Range / IfRange / ETags as modelled in C11/Base.v")
+
+    FW, RW = px.find_class(wsgi, "FileWrapper"), px.find_class(wsgi, "_RangeWrapper")
+    parts = [sk(FW, {ind(sk(find_method(FW, "seekable"))): "    def seekable(self) -> bool:\n        <T2:file_wrapper_seekable>"}),
+             sk(px.find_def(wsgi, "wrap_file"), {"buffer_size: int=8192": "buffer_size: int=<T1:file_wrapper_buffer_size>"}),
+             sk(find_method(RW, "__iter__")), sk(find_method(RW, "close")),
+             "<skeleton + GenArith.v> _RangeWrapper.__init__ / _next_chunk / _first_iteration / _next / __next__"]
+    px.check_pin(PID, "c11_wsgi.txt", "\n\n".join(parts) + "\n", "FileWrapper / wrap_file / _RangeWrapper as modelled in C11/Model.v")
+
+    sf = px.find_def(utils, "send_file")
+    blocks = [norm(n) for n in ast.walk(sf) if isinstance(n, ast.If) and norm(n.test) in
+              ("conditional", "isinstance(etag, str)", "last_modified is not None", "size is not None", "file is None")]
+    parts = [sk(px.find_class(exc, "RequestedRangeNotSatisfiable"), {"units: str='bytes'": "units: str=<T1:unsatisfiable_units>"}),
+             "send_file:\n" + "\n".join(blocks)]
+    px.check_pin(PID, "c11_misc.txt", "\n\n".join(parts) + "\n",
+                 "RequestedRangeNotSatisfiable / the blocks of send_file that feed make_conditional")
+
+
 def gen() -> None:
-    """T1 + T2: regenerate coq/C11/GenArith.v and coq/C11/Gen.v from the anchored source files."""
+    """T1 + T2: regenerate coq/C11/GenArith.v and coq/C11/Gen.v from the anchored source files, then compare the statement pins."""
     gen_arith()
+    gen_t2()
+    gen_pins()
+
+
+def gen_t2() -> None:
     http = px.load("http.py")
     sans = px.load("sansio/http.py")
     rng = px.load("datastructures/range.py")
@@ -2360,6 +2448,12 @@ def main(chk: Check) -> None:
         "email.utils date parsing / formatting and datetime arithmetic: parse_date is a Section variable of the model (any function), "
         "datetime values are instants in microseconds; replace(microsecond=0) + _dt_as_utc = floor to the second of the same instant "
         "(checked on 600 round trips per run)",
+        "statement pins tools/pins/c11_{response,http,datastructures,wsgi,misc}.txt: every werkzeug function the hand-written model "
+        "or an oracle stands for and that is not translated is compared with its pinned text on every run (translated parts are holes)",
+        "validated differentially only, no pin wanted: CPython library code (email.utils, datetime, re, io, hashlib.sha1, zlib.adler32); "
+        "werkzeug.test.EnvironBuilder / Headers / the header_property descriptors (glue, not specific to this property); "
+        "Response.get_wsgi_headers beyond its stripping statement and ClosingIterator (pinned by C05's c05_response.txt); the "
+        "mimetype / download-name / max_age / x-sendfile parts of utils.send_file (irrelevant to the property)",
         "seekable bodies are modelled as werkzeug.wsgi.FileWrapper over a byte string (blocks never empty); a seekable iterable that "
         "yields empty chunks at offset 0 is outside the model",
     ]
